@@ -124,7 +124,7 @@ Example C02_engine_example :
   (exists st T, run 200 (init (print p)) [] = Done st T /\ text_of T = words_text [1; 3; 1; 2; 5; 2]%Z).
 Proof. vm_compute. repeat split; eexists; try eexists; repeat split. Qed.
 
-(* S1 on fragment F2 = F1 + undelimited parameters (Spec/MacroPrint.v, in_F2): \def\m#1..#n{body} with n <= 9, calls
+(* S1 on fragment F2 = F1 + undelimited parameters + \ifcase (Spec/MacroPrint.v, in_F2): \ifcase<literal>\relax b0\or b1..[\else e]\fi; \def\m#1..#n{body} with n <= 9, calls
    \m{arg1}..{argn} with brace-balanced arguments (themselves words, groups, calls with arguments, conditionals,
    parameterless definitions), #k anywhere in a body (inside groups, arguments of inner calls, branches, bodies of
    parameterless inner definitions), bodies nested at most 49 deep (the reference evaluator substitutes with fuel 50);
@@ -161,4 +161,16 @@ Example C02_engine_example_F2 :
   in_F2 p = true /\ in_F1 p = false /\ gdef_safe 100 p = true /\
   (exists e, den 100 p = Ok e [9; 2; 9; 2; 3; 1]%Z) /\
   (exists st T, run 200 (init (print p)) [] = Done st T /\ text_of T = words_text [1; 3; 2; 9; 2; 9]%Z).
+Proof. vm_compute. repeat split; eexists; try eexists; repeat split. Qed.
+
+(* \ifcase is in F2 as well (non-negative literal selector, at least one branch, optional \else):
+   \def\A#1{\ifcase 2\relax W1 \or W2 \or #1\else W4 \fi \ifcase 5\relax W5 \else W6 \fi \ifcase 0\relax #1\fi}\A{W7 }  ->  W7 W6 W7 *)
+Example C02_engine_example_case :
+  let p := ([NDef false 1 1 None [NCase (OLit 2) [[NWord 1]; [NWord 2]; [NParam 1]] (Some [NWord 4]);
+                                  NCase (OLit 5) [[NWord 5]] (Some [NWord 6]);
+                                  NCase (OLit 0) [[NParam 1]] None];
+            NCall 1 None [[NWord 7]]])%Z in
+  in_F2 p = true /\ gdef_safe 100 p = true /\
+  (exists e, den 100 p = Ok e [7; 6; 7]%Z) /\
+  (exists st T, run 200 (init (print p)) [] = Done st T /\ text_of T = words_text [7; 6; 7]%Z).
 Proof. vm_compute. repeat split; eexists; try eexists; repeat split. Qed.
